@@ -58,6 +58,8 @@ def pmake(jobs, procs=None, chunksize=64):
     if not jobs:
         return []
     procs = procs or min(16, max(1, len(jobs) // 200))
+    if os.environ.get('VERIF_COVER'):
+        procs = 1          # line coverage is collected in this process
     if procs <= 1:
         return [_call(j) for j in jobs]
     ctx = multiprocessing.get_context('fork')
